@@ -52,7 +52,7 @@ def gen_cases(ctx):
             if ctx.quick and L == 3 and rng.random() < 0.5:
                 continue
             add(list(h))
-    for _ in range(1500 if ctx.quick else 30000):
+    for _ in range(1500 if ctx.quick else 120000):
         add([rng.choice(ALPHABET) for _ in range(rng.randrange(4, 9))])
     ctx.cov["distribution"] = {"alphabet": len(ALPHABET), "exhaustive_maxlen": maxlen}
     return lines
